@@ -974,3 +974,47 @@ SERDE_RULE = (WORLD_RULE + ". Serialisation operations on the worlds the history
               "counts, consistency and continued usability of every accepted world")
 SERDE_ASSUME = ["the user context is the documented example generalised: it handles 3 component types identified by number; "
                 "component values are numbers", "announced sizes and ids stay allocatable (entity ids <= 4096, counts small)"]
+
+
+# ----------------------------------------------------------------------------- layout / capacity boundaries (C04)
+BOUNDARY = [0, 1, 2, 5, 62, 63, 64, 65, 66, 70, 127, 128, 129, 130]
+
+
+def layout_case(universe, rnd, nops):
+    g = WorldGen(rnd, "default")
+    g.small = rnd.random() < 0.5
+    r = rnd
+    for _ in range(nops):
+        w = 0 if r.random() < 0.85 else 1
+        if g.poisoned[w]:
+            continue
+        c = r.random()
+        if c < 0.22:
+            ts = g.static_tuple(); n = r.choice(BOUNDARY)
+            g.emit(14, w, len(ts), list(ts), n, [g.val() for _ in range(n * len(ts))]); g.materialise(w); g.add(w, True, ts, n=n)
+        elif c < 0.42:
+            ts = g.pick_types(r.choice([0, 1, 2, 2, 3])); n = r.choice(BOUNDARY)
+            g.emit(15, w, len(ts), ts, n, [g.val() for _ in range(n * len(ts))]); g.materialise(w); g.add(w, True, ts, n=n)
+        elif c < 0.52:
+            ts = g.static_tuple()
+            g.emit(13, w, len(ts), list(ts), r.choice(BOUNDARY)); g.materialise(w)
+        elif c < 0.60:
+            # despawn a run of entities, then respawn: swap-remove and reuse below the capacity
+            a = g.alive(w)
+            for i in r.sample(a, min(len(a), r.choice([1, 3, 10, 40]))):
+                g.emit(6, w, 0, i); g.table[i]["alive"] = False
+        else:
+            g.w = [30, 2, 22, 12, 8, 10, 2, 4, 0, 3, 2, 2, 2, 0, 0, 0]
+            g.step()
+        g.emit(23)
+    g.probe(extra=2)
+    g.emit(23, 21, 0, 21, 1)
+    return [1] + universe + g.out
+
+
+def gen_layout(quick_n, thorough_n):
+    def gen(tier, seed, universe):
+        rnd = random.Random(seed)
+        for _ in range(quick_n if tier == "quick" else thorough_n):
+            yield layout_case(universe, rnd, rnd.randrange(3, 16))
+    return gen
